@@ -330,6 +330,13 @@ impl BinaryExpression {
     super::impl_token_fns!(iter = [token]);
 }
 
+#[cfg(feature = "verif")]
+impl BinaryOperator {
+    pub fn verif_get_precedence(&self) -> u8 {
+        self.get_precedence()
+    }
+}
+
 #[cfg(test)]
 mod test {
     use super::*;
